@@ -215,11 +215,19 @@ def run(model, col, tier):
     # ---------------- R15.5 ------------------------------------------------------
     ncc = 0
     lf = model.file(LOWER)
+    range_vars = {}
+    for fn_ in ast.walk(lf.tree):
+        if isinstance(fn_, ast.FunctionDef):
+            rv_ = {n.target.id for n in ast.walk(fn_) if isinstance(n, ast.For) and isinstance(n.target, ast.Name) and isinstance(n.iter, ast.Call) and dotted(n.iter.func) == "range"}
+            for c_ in ast.walk(fn_):
+                if isinstance(c_, ast.Call):
+                    range_vars.setdefault(id(c_), set()).update(rv_)
     for c in ast.walk(lf.tree):
         if isinstance(c, ast.Call) and last_attr(c) == "CreateConstant" and len(c.args) == 2:
             ncc += 1
             v = c.args[1]
-            good = isinstance(v, ast.Constant) or (isinstance(v, ast.Name) and v.id == "row") or unparse(v).endswith(".GetValue()")
+            # an int literal, the index variable of a `for .. in range(..)` loop of the same function, or a literal node's value
+            good = isinstance(v, ast.Constant) or (isinstance(v, ast.Name) and v.id in range_vars.get(id(c), set())) or unparse(v).endswith(".GetValue()")
             col.check(good, "R15.5", f"{LOWER}::CreateConstant({unparse(v)[:30]})", "the constant is an immutable scalar (literal, loop index or a literal's value)",
                       f"`{unparse(c)[:60]}`: the constant's value is not evidently an immutable scalar; constants are copied by reference into every frame", LOWER, c)
     col.floor("R15.5", "CreateConstant call sites in lowering", ncc, 4)
